@@ -1181,6 +1181,118 @@ func runAged(e int, maxElapsed time.Duration, token string) (ob AgedObs, failure
 }
 
 // ---------------------------------------------------------------------------
+// Shutdown while an export is asleep in the retry back-off, ALL SIX exporters.  The export retries against a collector
+// that never recovers (MaxElapsedTime 8 s, back-off 10-40 ms); after its third attempt Shutdown(ctx 1 s) is called from
+// another goroutine.  Observed: when Shutdown and the export returned (relative to the Shutdown call), the export's error,
+// requests arriving later than 3 s after Shutdown returned.  Precondition (else inconclusive): the third attempt was seen
+// within 2 s, i.e. the retry budget was still far away when Shutdown was called.
+// ---------------------------------------------------------------------------
+
+type ShutWaitObs struct {
+	Before           int    `json:"requests_before_shutdown"`
+	ShutdownReturned bool   `json:"shutdown_returned"`
+	ShutdownAfterNs  int64  `json:"shutdown_returned_after_call_ns"`
+	ShutdownErr      string `json:"shutdown_err"`
+	ExportReturned   bool   `json:"export_returned"`
+	ExportAfterNs    int64  `json:"export_returned_after_call_ns"`
+	ExportErr        string `json:"export_err"`
+	ExportErrClass   int    `json:"export_err_class"`
+	Late             int    `json:"requests_later_than_3s_after_shutdown_returned"`
+}
+
+func runShutdownWait(e int, token string) (ob ShutWaitObs, failure string, inconclusive string) {
+	defer func() {
+		if r := recover(); r != nil {
+			failure = fmt.Sprintf("panic: %v", r)
+		}
+	}()
+	const budget = 8 * time.Second
+	sc := &Scenario{Exporter: e, Enabled: true, Initial: 10 * time.Millisecond, MaxElapsed: budget, Timed: true, CancelAt: -1, ShutdownAt: -1, Token: token}
+	if isHTTP(e) {
+		sc.Script = []Resp{{Status: 503}}
+	} else {
+		sc.Script = []Resp{{Code: 14}}
+	}
+	c := &collector{sc: sc, start: time.Now()}
+	endpoint, stop, err := startCollector(c)
+	if err != nil {
+		return ob, "collector: " + err.Error(), ""
+	}
+	defer stop()
+	x, err := mkExporter(e, endpoint, sc)
+	if err != nil {
+		return ob, "exporter construction: " + err.Error(), ""
+	}
+	count := func() int { c.mu.Lock(); defer c.mu.Unlock(); return len(c.arrivals) }
+	ectx, ecancel := context.WithCancel(context.Background())
+	defer ecancel()
+	exported := make(chan error, 1)
+	tStart := time.Now()
+	go func() { exported <- x.export(ectx) }()
+	for count() < 3 {
+		if time.Since(tStart) > 2*time.Second {
+			ecancel()
+			<-exported
+			return ob, "", "the export did not reach its third attempt within 2 s: the retry budget is no longer far away"
+		}
+		time.Sleep(time.Millisecond)
+	}
+	ob.Before = count()
+	sctx, scancel := context.WithTimeout(context.Background(), time.Second)
+	defer scancel()
+	sdone := make(chan error, 1)
+	tCall := time.Now()
+	go func() { sdone <- x.shutdown(sctx) }()
+	// observe until both have returned (at most budget + 6 s), then 3.5 s more for late requests
+	var eerr error
+	limit := time.After(budget + 6*time.Second)
+	var tShut time.Duration
+	for !(ob.ShutdownReturned && ob.ExportReturned) {
+		select {
+		case serr := <-sdone:
+			ob.ShutdownReturned = true
+			ob.ShutdownAfterNs = int64(time.Since(tCall))
+			tShut = time.Since(c.start)
+			if serr != nil {
+				ob.ShutdownErr = serr.Error()
+			}
+		case eerr = <-exported:
+			ob.ExportReturned = true
+			ob.ExportAfterNs = int64(time.Since(tCall))
+		case <-limit:
+			goto done
+		}
+	}
+done:
+	if ob.ShutdownReturned {
+		time.Sleep(3500 * time.Millisecond)
+		c.mu.Lock()
+		for _, a := range c.arrivals {
+			if a.at > tShut+3*time.Second {
+				ob.Late++
+			}
+		}
+		c.mu.Unlock()
+	}
+	if !ob.ExportReturned {
+		ecancel()
+		select {
+		case eerr = <-exported:
+		case <-time.After(10 * time.Second):
+			return ob, "export did not return even after its own context was cancelled", ""
+		}
+	}
+	if eerr != nil {
+		ob.ExportErr = eerr.Error()
+		if len(ob.ExportErr) > 200 {
+			ob.ExportErr = ob.ExportErr[:200]
+		}
+	}
+	ob.ExportErrClass = errClass(eerr)
+	return ob, "", ""
+}
+
+// ---------------------------------------------------------------------------
 // generators
 // ---------------------------------------------------------------------------
 
@@ -1481,6 +1593,20 @@ func main() {
 			defer twg.Done()
 			tobs[i], tfail[i], tincon[i] = tc.run()
 		}(i, tc)
+	}
+
+	// Shutdown during a back-off wait, all six exporters: started now, collected later (the non-interrupting ones take the whole 8 s budget)
+	const shutWaitReps = 2
+	shutWaitObs := make([]ShutWaitObs, 6*shutWaitReps)
+	shutWaitFail := make([]string, 6*shutWaitReps)
+	shutWaitIncon := make([]string, 6*shutWaitReps)
+	var swwg sync.WaitGroup
+	for i := range shutWaitObs {
+		swwg.Add(1)
+		go func(i int) {
+			defer swwg.Done()
+			shutWaitObs[i], shutWaitFail[i], shutWaitIncon[i] = runShutdownWait(i%6, fmt.Sprintf("swk%04dx", i))
+		}(i)
 	}
 
 	// aged clients (the retry budget is per export): started now, collected later
@@ -1788,6 +1914,29 @@ func main() {
 			w.Tally(fmt.Sprintf("burst:gzip=%v", b.Gzip))
 			w.Add(term, desc, fmt.Sprintf("burst-gzip=%v-%s", b.Gzip, exporterNames[b.Exporter]), true)
 		}
+	}
+	swwg.Wait()
+	for i := range shutWaitObs {
+		e := i % 6
+		if shutWaitFail[i] != "" || shutWaitIncon[i] != "" {
+			w.Tally("rerun-sequentially")
+			shutWaitObs[i], shutWaitFail[i], shutWaitIncon[i] = runShutdownWait(e, fmt.Sprintf("swr%04dx", i))
+		}
+		ob := shutWaitObs[i]
+		desc := map[string]any{"exporter": exporterNames[e], "observed": ob}
+		if shutWaitFail[i] != "" {
+			w.Violation(shutWaitFail[i], desc)
+			continue
+		}
+		if shutWaitIncon[i] != "" {
+			inconclusive++
+			w.Tally("inconclusive:shutdown-wait")
+			continue
+		}
+		term := vgen.App("CShutdownWait", vgen.N(uint64(e)), vgen.Bool(ob.ShutdownReturned), vgen.Bool(ob.ExportReturned), vgen.N(uint64(ob.ExportErrClass)),
+			vgen.Z(ob.ExportAfterNs), vgen.Z(ob.ShutdownAfterNs), vgen.Nat(ob.Late))
+		w.Tally("shutdown-wait:" + exporterNames[e])
+		w.Add(term, desc, "shutdown-wait-"+exporterNames[e], true)
 	}
 	// partial_success matrix, one export at a time with nothing else in flight: every partial-success report the handler
 	// receives during an export belongs to it (a report without message text could not be attributed otherwise)
